@@ -2,6 +2,7 @@ package main
 
 import (
 	"fmt"
+	"reflect"
 	"strings"
 
 	"github.com/jmeaster30/vore/libvore/ast"
@@ -135,15 +136,38 @@ func c16Literal(c *Ctx, body string, q byte) {
 		c.Violation("REJECTED", fmt.Sprintf("literal %s (denoting %q) rejected: %s", lit, want, firstLine(perr.Error())), rec)
 		return
 	}
+	// the literal's parsed value: the only string-valued field named Value in the tree (read by
+	// reflection, so the check does not depend on the names of the syntax-tree types)
 	got, found := "", false
-	if cmds := tree.Commands(); len(cmds) == 1 {
-		if f, ok := cmds[0].(*ast.AstFind); ok && len(f.Body) == 1 {
-			if p, ok := f.Body[0].(*ast.AstPrimary); ok {
-				if s, ok := p.Literal.(*ast.AstString); ok {
-					got, found = s.Value, true
+	var walk func(x reflect.Value, depth int)
+	walk = func(x reflect.Value, depth int) {
+		if depth > 30 || found {
+			return
+		}
+		switch x.Kind() {
+		case reflect.Interface, reflect.Ptr:
+			if !x.IsNil() {
+				walk(x.Elem(), depth+1)
+			}
+		case reflect.Slice:
+			for i := 0; i < x.Len(); i++ {
+				walk(x.Index(i), depth+1)
+			}
+		case reflect.Struct:
+			for i := 0; i < x.NumField(); i++ {
+				f := x.Type().Field(i)
+				if f.Name == "Value" && x.Field(i).Kind() == reflect.String {
+					got, found = x.Field(i).String(), true
+					return
+				}
+				if f.IsExported() {
+					walk(x.Field(i), depth+1)
 				}
 			}
 		}
+	}
+	for _, cm := range tree.Commands() {
+		walk(reflect.ValueOf(&cm).Elem(), 0)
 	}
 	c.Outcome(got)
 	if !found || got != want {
